@@ -670,6 +670,7 @@ FAIL:
 
 func (c *client) loopRead() {
 	for {
+		verifhook.At("client.loopRead.decode", c)
 		resp, err := c.dec.Decode()
 		if err != nil {
 			if err != io.EOF && !strings.Contains(err.Error(), "use of closed network connection") {
@@ -718,6 +719,7 @@ func (c *client) handleResp(req *simpleRequest, v *RespValue) {
 
 func (c *client) drainRequests() {
 	for {
+		verifhook.At("client.drain.select", c)
 		select {
 		case req := <-c.pendingReqs:
 			verifhook.At2("client.drain.pending", c, req)
